@@ -150,6 +150,9 @@ type fnTrans struct {
 	extraQueries  []string
 	usedAxioms    map[string]bool
 	optAxioms     map[string]Term
+	inl           *inlineFrame
+	inlSeq        int
+	inlStack      []*ssa.Function
 	seqViews      map[string]Term
 	ghostParams   []bound
 	usedImmut     map[string]bool
@@ -186,6 +189,9 @@ func (t *fnTrans) assume(text Term) {
 	if text == "true" || text == "" {
 		return
 	}
+	if t.inl != nil {
+		text = fmt.Sprintf("(=> %s %s)", t.inl.cur, text)
+	}
 	t.cons = append(t.cons, constraint{t.blk.Index, true, text})
 }
 func (t *fnTrans) define(text Term) {
@@ -203,6 +209,20 @@ func (t *fnTrans) posStr(p token.Pos) string {
 // oblige records an obligation at the current point and then assumes it.
 func (t *fnTrans) oblige(kind, name, desc string, cond Term, pos token.Pos) {
 	if cond == "true" {
+		return
+	}
+	if t.inl != nil {
+		// inside an inlined callee: the obligation holds when that callee block is reached
+		cond = fmt.Sprintf("(=> %s %s)", t.inl.cur, cond)
+		desc += " (in inlined " + t.inl.name + ")"
+		t.siteN[kind+"["+name+"]"]++
+		full := fmt.Sprintf("%s/%s[%s]#%d", t.name, kind, name, t.siteN[kind+"["+name+"]"])
+		o := &Obligation{Name: full, Fn: t.name, Kind: kind, Block: t.blk.Index, NCons: len(t.cons), Cond: cond, Desc: desc, Pos: t.posStr(pos)}
+		if t.fc != nil {
+			o.Props = t.fc.Props
+		}
+		t.obls = append(t.obls, o)
+		t.cons = append(t.cons, constraint{t.blk.Index, true, cond})
 		return
 	}
 	key := kind
@@ -869,6 +889,9 @@ func (t *fnTrans) defineReg(v ssa.Value, term Term) Val {
 		return r
 	}
 	n := "v_" + sanitize(v.Name())
+	if t.inl != nil {
+		n = "v_" + t.inl.prefix + sanitize(v.Name())
+	}
 	t.declare(n, t.S.sortOf(v.Type()))
 	t.define(fmt.Sprintf("(= %s %s)", n, term))
 	r := Val{T: n}
@@ -1069,6 +1092,7 @@ func (t *fnTrans) pass() {
 	t.seqViews, t.seqFacts = nil, nil
 	t.locPtrs = nil
 	t.lockGhosts = nil
+	t.inl, t.inlSeq, t.inlStack = nil, 0, nil
 	t.callSeq = 0
 	t.allowedDone, t.allowed, t.allowedAll = false, nil, false
 	t.S.decls, t.S.declared, t.S.axioms = nil, map[string]bool{}, nil
